@@ -62,7 +62,7 @@ def make_scenario(rng, cls):
         ev.append(["eval", rng.randrange(npts)])           # repeated subgradient at one point
     nstat = rng.choice([0, 1, 1, 1, 2]) if cls != "SmoothStronglyConvexQuadraticFunction" else 0
     if cls in ("ConvexQGFunction", "RsiEbFunction"):
-        nstat = rng.choice([1, 1, 2])
+        nstat = rng.choice([1, 1, 2, 0])        # 0: the class creates the minimiser it is defined with by itself
     for _ in range(nstat):
         ev.append(["stat"])
     if kind == "operator" and cls != "LinearOperator" and rng.random() < 0.3:
